@@ -24,12 +24,12 @@ Require Import Model Spec Refine.
    - the generated code never gets stuck (NameError/TypeError) unless the spec
      says Raise (names unbound / non-functions applied: outside the property). *)
 Theorem C01_exec_refines_peg :
-  forall (g funs : list (list nat * expr)) (named : bool) (ignored : option nat)
+  forall (g funs : list (list nat * expr)) (ignored : option nat)
          (t : list nat) (rx : nat -> nat -> option nat),
     (forall r b, nth_error g r = Some ([], b) -> wf g ignored t rx [] b) ->
     (forall r, ignored = Some r -> exists es, nth_error g r = Some ([], Skip es)) ->
     forall n e sc E s, wf g ignored t rx sc e -> scope_of sc E -> sub E (locals s) ->
-      match peg g ignored t rx n E e (pos s), exec true g funs named ignored t rx n e s with
+      match peg g ignored t rx n E e (pos s), exec true g funs ignored t rx n e s with
       | Fuel, OutOfFuel => True
       | Raise, _ => True
       | Match v p', Done s' => status s' = true /\ result s' = v /\ pos s' = p' /\ sub E (locals s')
@@ -67,6 +67,6 @@ Proof.
 Qed.
 (* with the flag as shipped (list_fixed = false) the model rejects "ab": refuted *)
 Example C01_shipped_list_flag_refuted :
-  match exec false ex_g [] false None [97; 98] (fun _ _ => None) 10 (Ref 0) (fresh 0) with
+  match exec false ex_g [] None [97; 98] (fun _ _ => None) 10 (Ref 0) (fresh 0) with
   | Done s => status s = false | _ => False end.
 Proof. vm_compute. reflexivity. Qed.
